@@ -218,7 +218,8 @@ def update_resource_class(req):  # noqa
     context.can(policies.UPDATE)
 
     # Use JSON validation to validation resource class name.
-    util.extract_json('{"name": "%s"}' % name, schema.PUT_RC_SCHEMA_V1_2)
+    util.extract_json(jsonutils.dumps({'name': name}),
+                      schema.PUT_RC_SCHEMA_V1_2)
 
     status = 204
     try:
